@@ -39,7 +39,7 @@ def endpointOf (nfiles : Nat) (spec : String) : Option (Server Ã— Crypki.Reply Ã
       | "tls13" => some âŸ¨0x0304, true, true, trueâŸ©
       | "down" => some âŸ¨0, false, false, falseâŸ©
       | _ => none
-    let srv := { srv with acceptsClient := srv.acceptsClient && cmode != "requireother" }
+    let srv := { srv with acceptsClient := srv.acceptsClient && cmode != "requireother" && cmode != "ifgivenother" }
     let f := behav.splitOn "."
     let reply : Crypki.Reply â† match f with
       | "ok" :: n :: shape :: rest => do
@@ -57,7 +57,7 @@ def endpointOf (nfiles : Nat) (spec : String) : Option (Server Ã— Crypki.Reply Ã
       | "err" :: _ => some .fail
       | ["slow"] => some .fail
       | _ => none
-    pure (srv, reply, ident != "down", cmode == "request" || cmode == "requesthint" || cmode == "require")
+    pure (srv, reply, ident != "down", cmode == "request" || cmode == "requesthint" || cmode == "require" || cmode == "ifgiven")
   | _ => none
 
 def handleCrypki (op : String) (args : List String) (impl : Option (List String)) : Option Drv.Reply :=
